@@ -1610,6 +1610,18 @@ pub fn run(id: &str, tier: Tier, seed: u64) -> Report {
                 if rep.failed() {
                     return rep;
                 }
+                let mut cases = vec![];
+                for endpoint in 0..5u8 {
+                    for attempts in [30u32, 70, 200] {
+                        cases.push(BusyCase20 { endpoint, attempts });
+                    }
+                }
+                let mut r = engine::enumerate_n("C20", "busy", 8, cases, check_busy_c20);
+                r.exhaustive = false;
+                rep.absorb("responses-while-the-database-is-locked", r);
+                if rep.failed() {
+                    return rep;
+                }
                 // the same grammar over real sockets: an actix HttpServer and the real executable
                 // (whose main() puts an error-handler and a logger middleware in front)
                 let r = engine::explore("C20", "socket", seed, tier.pick(160, 6000), || scase20(12), check_sock_c20);
@@ -1873,6 +1885,57 @@ fn fault_cases20() -> Vec<FCase20> {
     out
 }
 
+/// C20 for a database that stays locked beyond the lock-wait budget (another connection holds
+/// the write lock): whatever the server answers then must forbid caching as well.  The contention
+/// is injected at the VFS (see vfs.rs); one budget is 61 refused attempts.
+#[derive(Clone, Debug, Serialize, Deserialize, PartialEq, Eq, Hash)]
+pub struct BusyCase20 {
+    pub endpoint: u8,
+    pub attempts: u32,
+}
+
+fn check_busy_c20(bc: &BusyCase20, st: &mut Stats) -> CheckResult {
+    let dir = TempDir::new("c20b");
+    let dpath = dir.path().to_path_buf();
+    let rec = crate::vfs::track(&dpath);
+    let r = (|| -> CheckResult {
+        let cfg = case::Cfg::default();
+        let mut drv = Driver::with_factory(Backend::Sqlite, Via::Http, &cfg, None, sqlite_factory(dpath.clone()), None).map_err(|e| Fail::Violation(format!("opening storage: {e:#}")))?;
+        let c = case::client_uuid(20, 0);
+        let v1 = match drv.add_version(c, Uuid::nil(), b"one") {
+            Outcome::Accepted { id, .. } => id,
+            o => return v(format!("set-up: {}", o.short())),
+        };
+        let _ = drv.add_snapshot(c, v1, b"snap");
+        let c2 = case::client_uuid(20, 1);
+        let req = match bc.endpoint % 5 {
+            0 => crate::driver::req_add_version(c, v1, vec![Bytes::from_static(b"two")]),
+            1 => crate::driver::req_get_child(c, Uuid::nil()),
+            2 => crate::driver::req_add_snapshot(c, v1, vec![Bytes::from_static(b"snap2")]),
+            3 => crate::driver::req_get_snapshot(c),
+            _ => crate::driver::req_add_version(c2, Uuid::nil(), vec![Bytes::from_static(b"first")]),
+        };
+        let holder = rusqlite::Connection::open(dpath.join("taskchampion-sync-server.sqlite3")).map_err(|e| Fail::Inconclusive(format!("lock holder: {e}")))?;
+        let _: i64 = holder.query_row("SELECT count(*) FROM sqlite_master", [], |r| r.get(0)).map_err(|e| Fail::Inconclusive(format!("lock holder: {e}")))?;
+        rec.set_busy(bc.attempts);
+        let resp = drv.http_call(req.clone());
+        let hits = rec.clear_busy();
+        drop(holder);
+        if resp.crashed.is_some() {
+            st.label("c20:busy:handler-crashed(no response)");
+            return Ok(());
+        }
+        c20_check(&format!("database locked by another connection ({hits} lock attempts refused)"), &req, &resp, st)?;
+        st.label(&format!("c20:busy:{}", resp.status));
+        if resp.status >= 500 {
+            st.nontrivial(&("c20-busy", bc.endpoint % 5, resp.status));
+        }
+        Ok(())
+    })();
+    crate::vfs::untrack();
+    r
+}
+
 /// C20 over the allow-list exploration: every response (403s included) must forbid caching.
 fn check_allow_c20(ac: &ACase, st: &mut Stats) -> CheckResult {
     let cfg = ac.prefix.cfg.clone();
@@ -1918,6 +1981,7 @@ pub fn replay(id: &str, kind: &str, case_json: &Value, st: &mut Stats) -> CheckR
         ("C15", "limit") => check_limit(&serde_json::from_value(case_json.clone()).map_err(bad)?, false, st),
         ("C20", "limit") => check_limit(&serde_json::from_value(case_json.clone()).map_err(bad)?, true, st),
         ("C20", "allow") => check_allow_c20(&serde_json::from_value(case_json.clone()).map_err(bad)?, st),
+        ("C20", "busy") => check_busy_c20(&serde_json::from_value(case_json.clone()).map_err(bad)?, st),
         ("C20", "fault") => check_fault_c20(&serde_json::from_value(case_json.clone()).map_err(bad)?, st),
         ("C20", "socket") => check_sock_c20(&serde_json::from_value(case_json.clone()).map_err(bad)?, st),
         ("C16", "allow") => check_allow(&serde_json::from_value(case_json.clone()).map_err(bad)?, st),
